@@ -861,11 +861,13 @@ func (d *Directory) SetControls(controls ...gldap.Control) {
 	d.controls = controls
 }
 
-// Users returns all the current user entries in the Directory
+// Users returns all the current user entries in the Directory.  The slice
+// returned is the caller's own: the directory's list can be changed (by Set*,
+// or by a client's add/delete) while the caller is still looking at it.
 func (d *Directory) Users() []*gldap.Entry {
 	d.mu.Lock()
 	defer d.mu.Unlock()
-	return d.users
+	return append([]*gldap.Entry(nil), d.users...)
 }
 
 // SetUsers sets the user entries.
@@ -878,11 +880,12 @@ func (d *Directory) SetUsers(users ...*gldap.Entry) {
 	d.users = users
 }
 
-// Groups returns all the current group entries in the Directory
+// Groups returns all the current group entries in the Directory.  The slice
+// returned is the caller's own (see Users).
 func (d *Directory) Groups() []*gldap.Entry {
 	d.mu.Lock()
 	defer d.mu.Unlock()
-	return d.groups
+	return append([]*gldap.Entry(nil), d.groups...)
 }
 
 // SetGroups sets the group entries.
